@@ -101,6 +101,10 @@ def check_group_eval(chk) -> bool:
     env = dict(stubs)
     env.update(module_callables(repo, P, outer=env))  # helpers a refactoring extracted are interpreted, not pinned
     bad: Dict[str, List[str]] = {}
+    from sa.fragment import coverage
+
+    _cov = coverage()
+    cov = _cov.__enter__()
     try:
         for tag, fact, keys in GROUP_CASES:
             atoms = [_atom(i, *k) for i, k in enumerate(keys)]
@@ -132,8 +136,11 @@ def check_group_eval(chk) -> bool:
     except Unknown as ex:
         chk.ok("group-eval", fi.where, f"group_atoms is not evaluable on representative atom lists ({str(ex)[:80]}): the pinned-form rules decide")
         return False
+    finally:
+        _cov.__exit__(None, None, None)
     with evidence(chk, "identity-key-model", "group-runs"):
         _group_verdicts(chk, fi, bad)
+        report_silent_exits(chk, "group-runs", [fi] + new_helpers(repo, P), cov, "atom lists", {"continue": "atoms are left out of their residue", "break": "the grouping ends before the last atom", "return": "the structure is returned before all atoms are grouped"})
     return True
 
 
@@ -360,6 +367,10 @@ def check_v1_reader_eval(chk) -> bool:
     repo = chk.repo
     sp = spec("pdb_columns.json")
     fi = repo.func(P, "parse_pdb")
+    from sa.fragment import coverage
+
+    _cov = coverage()
+    cov = _cov.__enter__()
     try:
         rd = V1Reader(repo)
         classes = record_classes(sp)
@@ -400,8 +411,11 @@ def check_v1_reader_eval(chk) -> bool:
     except Unknown as ex:
         chk.ok("pdb-reader-eval", fi.where, f"parse_pdb is not evaluable on representative lines ({str(ex)[:80]}): the pinned-form rules decide")
         return False
+    finally:
+        _cov.__exit__(None, None, None)
     with evidence(chk, "pdb-record-loop", "pdb-atom-branch", "pdb-decoding", "pdb-atom-record"):
         _v1_verdicts(chk, repo, fi, rd, classes, atom_line, wrong, stops, raises, models, default_model, dec)
+        report_silent_exits(chk, "pdb-atom-branch", [fi] + new_helpers(repo, P), cov, "record lines (one per record class, fully populated ATOM / HETATM lines among them)", {"continue": "the line is skipped: an atom record of the file is not among the atoms read", "break": "reading stops there: the atom records that follow are not read", "return": "reading ends there"})
     return True
 
 
@@ -464,6 +478,10 @@ def check_model_selection_eval(chk) -> bool:
         return False
     cases: Dict[str, List[str]] = {"requested": [], "default": [], "absent": [], "pass": [], "reader": []}
     n = 0
+    from sa.fragment import coverage
+
+    _cov = coverage()
+    cov = _cov.__enter__()
     try:
         for is_cif in (True, False):
             for tag, models in MODEL_FILES:
@@ -510,9 +528,629 @@ def check_model_selection_eval(chk) -> bool:
     except Unknown as ex:
         chk.ok("model-selection-eval", fi.where, f"read_3d_structure is not evaluable on representative files ({str(ex)[:80]}): the symbolic path rule decides")
         return False
+    finally:
+        _cov.__exit__(None, None, None)
     with evidence(chk, "model-selection"):
+        report_silent_exits(chk, "model-selection", [fi] + new_helpers(repo, P), cov, "(file, requested model) cases", {"continue": "atoms or models are left out", "break": "the selection ends early", "return": "a structure is returned without the selection the statement describes"})
         chk.expect(not cases["requested"], "model-selection", fi.where, "evaluated: a requested model that is present selects exactly the atoms with that model number, in file order", "a requested model that is present does not select exactly its atoms: " + "; ".join(cases["requested"][:2]), K(fi, "select-requested"), found=cases["requested"][:6])
         chk.expect(not cases["default"], "model-selection", fi.where, "evaluated: without a requested model the first model of the file (order of first appearance) is selected", "without a requested model the first model of the file is not what is returned: " + "; ".join(cases["default"][:2]), K(fi, "select-default"), found=cases["default"][:6])
         chk.expect(not cases["absent"], "model-selection", fi.where, "evaluated: a requested model that is absent falls back to the first model of the file", "a requested model that is absent does not fall back to the first model: " + "; ".join(cases["absent"][:2]), K(fi, "select-absent"), found=cases["absent"][:6])
         chk.expect(not cases["pass"] and not cases["reader"], "model-selection", fi.where, f"evaluated on {n} (file, request) cases: the selected atoms and the reader's side tables are handed to group_atoms unchanged; mmCIF input is read by parse_cif, PDB input by parse_pdb", "; ".join((cases["reader"] + cases["pass"])[:2]), K(fi, "select-pass"), found=(cases["reader"] + cases["pass"])[:6])
+    return True
+
+
+# --------------------------------------------------------------------------------------------------------------------
+# format detection (round 4): which reader a file is handed to
+# --------------------------------------------------------------------------------------------------------------------
+class TextFile:
+    """A text file stub with a position: iteration, readline(s) and read continue where the last read stopped, seek moves."""
+
+    _folder_stub = True
+
+    def __init__(self, lines: List[str]):
+        self.lines, self.pos = list(lines), 0
+
+    def seek(self, n=0, *a):
+        self.pos = 0 if n == 0 else len(self.lines)
+        return 0
+
+    def tell(self):
+        return self.pos
+
+    def readline(self):
+        if self.pos >= len(self.lines):
+            return ""
+        self.pos += 1
+        return self.lines[self.pos - 1]
+
+    def readlines(self):
+        out, self.pos = self.lines[self.pos :], len(self.lines)
+        return out
+
+    def read(self):
+        return "".join(self.readlines())
+
+    def __iter__(self):
+        return self
+
+    def __next__(self):
+        l = self.readline()
+        if l == "":
+            raise StopIteration
+        return l
+
+    def close(self):
+        return None
+
+
+_CIF_ATOM_SITE = [
+    "loop_\n", "_atom_site.group_PDB\n", "_atom_site.id\n", "_atom_site.type_symbol\n", "_atom_site.label_atom_id\n", "_atom_site.label_comp_id\n", "_atom_site.label_asym_id\n",
+    "_atom_site.label_seq_id\n", "_atom_site.Cartn_x\n", "_atom_site.Cartn_y\n", "_atom_site.Cartn_z\n", "_atom_site.pdbx_PDB_model_num\n",
+    "ATOM 1 P P G A 1 1.000 2.000 3.000 1\n", "HETATM 2 MG MG MG B . 4.000 5.000 6.000 1\n", "#\n",
+]
+
+
+def format_cases(sp) -> List[Tuple[str, List[str], bool]]:
+    """(description, lines, is mmCIF).  An mmCIF file is a sequence of categories; everything before the atom_site loop is arbitrary:
+    item names of other categories, loops, and free text (semicolon-delimited multi-line values) whose lines may start with any word -
+    one case per class of PDB record name, since those are the words a format sniffer would look for."""
+    recs = [(tag, line.rstrip() + "\n") for tag, line, _, _ in record_classes(sp) if line.strip()]
+    cases: List[Tuple[str, List[str], bool]] = [
+        ("a coordinate-only mmCIF file (data block, then the atom_site loop)", ["data_demo\n", "#\n"] + _CIF_ATOM_SITE, True),
+        ("an mmCIF file whose atom_site loop starts with another item than group_PDB", ["data_demo\n", "loop_\n", "_atom_site.id\n", "_atom_site.group_PDB\n", "1 ATOM\n", "#\n"], True),
+        ("an mmCIF file with 40 lines of other categories before atom_site", ["data_demo\n"] + [f"_entity.item_{k} value\n" for k in range(40)] + _CIF_ATOM_SITE, True),
+    ]
+    for tag, line in recs:
+        cases.append((f"an mmCIF file with a free-text value before atom_site, one line of which starts like a {tag} record", ["data_demo\n", "_refine.details\n", ";\n", line, ";\n", "#\n"] + _CIF_ATOM_SITE, True))
+    cases += [
+        ("a PDB file (HEADER, REMARK, atom records, END)", [l for _, l in recs], False),
+        ("a PDB file of atom records only", [l for t, l in recs if t in ("ATOM", "HETATM")], False),
+        ("a PDB file that mentions _atom_site inside a REMARK", ["REMARK   3  converted from the _atom_site category\n"] + [l for t, l in recs if t in ("ATOM", "HETATM", "END")], False),
+        ("an empty file", [], False),
+    ]
+    return cases
+
+
+def check_format_detection_eval(chk) -> bool:
+    """`is_cif` interpreted on one file per class: an mmCIF file is recognised whatever precedes its atom_site loop, a PDB file is not."""
+    repo = chk.repo
+    if not repo.has_func(P, "is_cif"):
+        chk.error("format-detection", f"src/rnapolis/{P}.py", "the format test is_cif(file) was not found")
+        return True
+    fi = repo.func(P, "is_cif")
+    chk.note_function(fi)
+    sp = spec("pdb_columns.json")
+    env: Dict[str, Any] = {}
+    env.update(module_callables(repo, P, outer=env))
+    bad_cif: List[str] = []
+    bad_pdb: List[str] = []
+    n = 0
+    from sa.fragment import coverage
+
+    _cov = coverage()
+    cov = _cov.__enter__()
+    try:
+        call = func_callable(repo, P, fi.node, env)
+        for tag, lines, want in format_cases(sp):
+            n += 1
+            f = TextFile(lines)
+            f.pos = len(lines)  # a handle that has been read to its end before: detection has to rewind it itself
+            try:
+                got = call(f)
+            except Raised as ex:
+                (bad_cif if want else bad_pdb).append(f"{tag}: raises {ex.name}")
+                continue
+            except Unknown:
+                raise
+            except Exception as ex:
+                (bad_cif if want else bad_pdb).append(f"{tag}: raises {type(ex).__name__}")
+                continue
+            if bool(got) != want:
+                (bad_cif if want else bad_pdb).append(f"{tag} is taken for {'mmCIF' if got else 'PDB'}")
+    except Unknown as ex:
+        ref = repo.reference.get(P) if hasattr(repo, "reference") else None
+        same = ref is not None and "is_cif" in ref.funcs and norm(ref.funcs["is_cif"].node) == norm(fi.node)
+        if same:
+            chk.ok("format-detection", fi.where, "is_cif is the pinned scan of all lines for an `_atom_site` item (not evaluable here)")
+        else:
+            chk.error("format-detection", fi.where, f"is_cif is not evaluable on representative files ({str(ex)[:80]}) and not in its pinned form")
+        return True
+    finally:
+        _cov.__exit__(None, None, None)
+    with evidence(chk, "format-detection"):
+        report_silent_exits(chk, "format-detection", [fi] + new_helpers(repo, P), cov, "files", {"continue": "lines are passed over", "break": "the scan ends before the atom_site items are seen", "return": "the format is decided before the atom_site items are seen"})
+        chk.expect(
+            not bad_cif,
+            "format-detection",
+            fi.where,
+            f"evaluated on {n} files: an mmCIF file is recognised by its atom_site items whatever text precedes them (other categories, free-text values whose lines start like PDB records)",
+            "an mmCIF file is not recognised as mmCIF: " + "; ".join(bad_cif[:2]) + " - the decision depends on text before the atom_site loop, the file is then read by the PDB parser",
+            K(fi, "detect-cif"),
+            found=bad_cif[:6],
+        )
+        chk.expect(not bad_pdb, "format-detection", fi.where, "evaluated: a PDB file (also one mentioning _atom_site inside a REMARK) and an empty file are not mmCIF", "a PDB file is not recognised as PDB: " + "; ".join(bad_pdb[:2]), K(fi, "detect-pdb"), found=bad_pdb[:6])
+    return True
+
+
+# --------------------------------------------------------------------------------------------------------------------
+# what the representatives did not reach (round 4)
+# --------------------------------------------------------------------------------------------------------------------
+def new_helpers(repo, module: str) -> List[Any]:
+    """FuncInfos of the top-level functions the reference copy does not have (what module_callables interprets by default)."""
+    m = repo.module(module)
+    ref = repo.reference.get(module) if hasattr(repo, "reference") else None
+    return [fi for q, fi in m.funcs.items() if "." not in q and ref is not None and q not in ref.funcs]
+
+
+def report_silent_exits(chk, rule: str, fis, cov: set, what: str, consequence: Dict[str, str]) -> int:
+    """Evaluation on representatives decides the classes it ran.  A data-dependent `continue` / `break` / `return` that none of them
+    took is an outcome for *other* inputs - records that are skipped, a loop that ends early, a result returned before the work is
+    done - chosen by a condition on the data: by closed-world reasoning (the statement quantifies over all well-formed inputs, and
+    the representatives cover the classes it names) that is a violation, reported with the condition.  Returns the number reported."""
+    from sa.fragment import one_way_emissions, unreached_exits
+
+    n = 0
+    for fi in fis:
+        data = [a.arg for a in fi.node.args.args[:1]]
+        for st, way in one_way_emissions(fi.node, cov, data):
+            n += 1
+            if n > 2:
+                continue
+            chk.violation(
+                rule,
+                fi.site(st),
+                f"the condition `{norm(st.test)[:90]}` is never {way} for the representative {what}, and only the arm they take emits the record: for input on the other side of the condition "
+                f"{consequence.get('continue', 'the record is not emitted')} - silently, and the condition depends on the data, not on the request",
+                K(fi, f"one-way-emission:{norm(st.test)[:40]}"),
+                found=norm(st.test)[:120],
+            )
+        for st, guard in unreached_exits(fi.node, cov, data=data):
+            kind = {"Continue": "continue", "Break": "break", "Return": "return"}[type(st).__name__]
+            n += 1
+            if n > 2:
+                continue
+            chk.violation(
+                rule,
+                fi.site(st),
+                f"`{norm(st)[:50]}` under the condition `{guard[:90]}` is taken by none of the representative {what}: for input that satisfies the condition {consequence.get(kind, 'the outcome differs')} - silently, "
+                "and the condition depends on the data, not on the request",
+                K(fi, f"silent-exit:{kind}:{guard[:40]}"),
+                found=guard[:120],
+            )
+    return n
+
+
+# --------------------------------------------------------------------------------------------------------------------
+# parse_cif: atom_site decoding, evaluated (round 4)
+# --------------------------------------------------------------------------------------------------------------------
+class _Category:
+    _folder_stub = True
+
+    def __init__(self, attrs: List[str], rows: List[List[str]]):
+        self._attrs, self._rows = list(attrs), [list(r) for r in rows]
+
+    def getAttributeList(self):
+        return list(self._attrs)
+
+    def getRowList(self):
+        return [list(r) for r in self._rows]
+
+    def getRowCount(self):
+        return len(self._rows)
+
+    def hasAttribute(self, a):
+        return a in self._attrs
+
+    def __bool__(self):
+        return True
+
+    def __len__(self):
+        return len(self._rows)
+
+
+class _Container:
+    _folder_stub = True
+
+    def __init__(self, cats: Dict[str, _Category]):
+        self._cats = cats
+
+    def getObj(self, name):
+        return self._cats.get(name)
+
+    def exists(self, name):
+        return name in self._cats
+
+    def getObjNameList(self):
+        return list(self._cats)
+
+
+CIF_FULL = {
+    "group_PDB": "ATOM", "id": "7", "type_symbol": "C", "label_atom_id": "C4'", "label_alt_id": ".", "label_comp_id": "G", "label_asym_id": "AA", "label_entity_id": "3", "label_seq_id": "41",
+    "pdbx_PDB_ins_code": "C", "Cartn_x": "11.250", "Cartn_y": "-22.500", "Cartn_z": "33.125", "occupancy": "0.50", "B_iso_or_equiv": "20.00", "pdbx_formal_charge": "?", "auth_seq_id": "-12", "auth_comp_id": "GTP",
+    "auth_asym_id": "B", "auth_atom_id": "C4'", "pdbx_PDB_model_num": "2",
+}
+
+
+def cif_row_cases() -> List[Tuple[str, str, Dict[str, str], Optional[Dict[str, Any]]]]:
+    """(description, fact it isolates, the items of one atom_site row, the atom expected - None: the row has no identity and is skipped)"""
+    full = dict(CIF_FULL)
+    label = ("ResidueLabel", "AA", 41, "G")
+    auth = ("ResidueAuth", "B", -12, "C", "GTP")
+    base = {"entity_id": "3", "label": label, "auth": auth, "model": 2, "name": "C4'", "x": 11.25, "y": -22.5, "z": 33.125, "occupancy": 0.5}
+
+    def case(tag, fact, change: Dict[str, Optional[str]], want_change: Optional[Dict[str, Any]]):
+        row = {k: v for k, v in full.items() if change.get(k, "") is not None}
+        row.update({k: v for k, v in change.items() if v is not None})
+        return (tag, fact, row, None if want_change is None else {**base, **want_change})
+
+    no_ic = ("ResidueAuth", "B", -12, None, "GTP")
+    return [
+        case("a row with a distinct value in every item (negative author number, insertion code, model 2)", "items", {}, {}),
+        case("insertion code `?`", "null", {"pdbx_PDB_ins_code": "?"}, {"auth": no_ic}),
+        case("insertion code `.`", "null", {"pdbx_PDB_ins_code": "."}, {"auth": no_ic}),
+        case("no pdbx_PDB_ins_code item", "optional", {"pdbx_PDB_ins_code": None}, {"auth": no_ic}),
+        case("occupancy `?`", "null", {"occupancy": "?"}, {"occupancy": None}),
+        case("occupancy `.`", "null", {"occupancy": "."}, {"occupancy": None}),
+        case("no occupancy item", "optional", {"occupancy": None}, {"occupancy": None}),
+        case("label_seq_id `.` (hetero group / water: no label number)", "identity", {"label_seq_id": "."}, {"label": None}),
+        case("label_seq_id `?`", "identity", {"label_seq_id": "?"}, {"label": None}),
+        case("no author items (label identity only)", "absent", {"auth_seq_id": None, "auth_comp_id": None, "auth_asym_id": None}, {"auth": None}),
+        case("no auth_seq_id item (the dictionary does not require it)", "absent", {"auth_seq_id": None}, {"auth": None}),
+        case("no pdbx_PDB_model_num item", "optional", {"pdbx_PDB_model_num": None}, {"model": 1}),
+        case("negative label_seq_id and author number 0", "numbers", {"label_seq_id": "-3", "auth_seq_id": "0"}, {"label": ("ResidueLabel", "AA", -3, "G"), "auth": ("ResidueAuth", "B", 0, "C", "GTP")}),
+        case("neither a complete label nor a complete author identity", "skip", {"label_seq_id": ".", "auth_comp_id": None}, None),
+    ]
+
+
+def check_cif_eval(chk) -> bool:
+    """parser.parse_cif interpreted on one atom_site row per class (the mmcif reader is a stub handing out the category as rows of
+    strings, as the library does).  Rules: cif-items, cif-atom-record, null-markers, int-parsing, cif-row-skip, reader-result."""
+    repo = chk.repo
+    fi = repo.func(P, "parse_cif")
+    atom_fields = dataclass_fields(repo, "tertiary", "Atom")
+    filtered: List[int] = []
+    from sa.fragment import coverage
+
+    def run(rows: List[Dict[str, str]]):
+        attrs: List[str] = []
+        for r in rows:
+            for k in r:
+                if k not in attrs:
+                    attrs.append(k)
+        cat = _Category(attrs, [[r.get(a, "?") for a in attrs] for r in rows])
+        reader = Obj("io_adapter", readFile=lambda *a, **k: [_Container({"atom_site": cat})])
+        env: Dict[str, Any] = {
+            "IoAdapterPy": lambda *a, **k: reader,
+            "IoAdapterCore": lambda *a, **k: reader,
+            "Atom": lambda *a: ("Atom",) + tuple(a),
+            "ResidueAuth": lambda *a: ("ResidueAuth",) + tuple(a),
+            "ResidueLabel": lambda *a: ("ResidueLabel",) + tuple(a),
+            "filter_clashing_atoms": lambda atoms, *a: (filtered.append(len(atoms)), list(atoms))[1],
+        }
+        names = {"try_parse_int"} | {g.node.name for g in new_helpers(repo, P)}
+        env.update(module_callables(repo, P, names=names, outer=env))
+        call = func_callable(repo, P, fi.node, env, max_steps=20000)
+        f = Lines([])
+        f.name = "/nonexistent/representative.cif"
+        res = call(f)
+        atoms = res[0] if isinstance(res, tuple) else res
+        out = []
+        for a in atoms:
+            if not (isinstance(a, tuple) and a and a[0] == "Atom" and len(a) == len(atom_fields) + 1):
+                raise Unknown("parse_cif does not return Atom(...) records")
+            out.append(dict(zip(atom_fields, a[1:])))
+        return out, res
+
+    bad: Dict[str, List[str]] = {}
+    cases = cif_row_cases()
+    _cov = coverage()
+    cov = _cov.__enter__()
+    try:
+        for tag, fact, row, want in cases:
+            del filtered[:]
+            try:
+                got, res = run([row])
+            except Raised as ex:
+                bad.setdefault("absent" if fact == "absent" else ("skip" if want is not None else "raise"), []).append(f"{tag}: parse_cif raises {ex.name}")
+                continue
+            except Unknown:
+                raise
+            except Exception as ex:
+                bad.setdefault("absent" if fact == "absent" else ("skip" if want is not None else "raise"), []).append(f"{tag}: parse_cif raises {type(ex).__name__} ({str(ex)[:50]})")
+                continue
+            if want is None:
+                if got:
+                    bad.setdefault("skip", []).append(f"{tag}: an atom is built all the same")
+                continue
+            if len(got) != 1:
+                bad.setdefault("skip", []).append(f"{tag}: the row yields {len(got)} atoms instead of one")
+                continue
+            if filtered != [1] or not (isinstance(res, tuple) and len(res) == 4):
+                bad.setdefault("result", []).append(f"{tag}: the decoded atoms do not pass through filter_clashing_atoms exactly once into (atoms, modified, sequences, nucleic-acid table)")
+            diff = {k: (got[0].get(k, "<absent>"), v) for k, v in want.items() if got[0].get(k, "<absent>") != v or type(got[0].get(k)) is not type(v)}
+            if diff:
+                k0 = sorted(diff)[0]
+                bucket = "null" if fact == "null" else ("numbers" if fact == "numbers" or (k0 in ("label", "auth") and fact == "items" and isinstance(diff[k0][0], tuple) and isinstance(diff[k0][1], tuple) and [type(x) for x in diff[k0][0]] != [type(x) for x in diff[k0][1]]) else "items")
+                bad.setdefault(bucket, []).append(f"{tag}: " + "; ".join(f"{k} is read as {g!r}, the row says {w!r}" for k, (g, w) in sorted(diff.items())[:3]))
+        # two rows of two models: both come back, in file order
+        two, _ = run([dict(CIF_FULL, pdbx_PDB_model_num="1"), dict(CIF_FULL, pdbx_PDB_model_num="2", id="8")])
+        if [a.get("model") for a in two] != [1, 2]:
+            bad.setdefault("skip", []).append(f"two rows of models 1 and 2 come back as models {[a.get('model') for a in two]}")
+    except Unknown as ex:
+        chk.ok("cif-eval", fi.where, f"parse_cif is not evaluable on representative atom_site rows ({str(ex)[:80]}): the pinned-form rules decide")
+        return False
+    finally:
+        _cov.__exit__(None, None, None)
+    with evidence(chk, "cif-items", "cif-atom-record", "null-markers", "int-parsing", "cif-row-skip", "reader-result", "cif-absent-items"):
+        chk.expect(not bad.get("items"), "cif-items", fi.where, f"evaluated on {len(cases)} atom_site rows: chain, number, name, insertion code, model, atom name and coordinates come from their own mmCIF items; label and author identity are built when their three items are present", "an atom_site row is decoded wrongly: " + "; ".join(bad.get("items", [])[:2]), K(fi, "items"), found=bad.get("items", [])[:4])
+        chk.expect(not bad.get("items"), "cif-atom-record", fi.where, "evaluated: Atom(entity, label, auth, model, name, x, y, z, occupancy) with ResidueAuth(chain, number, insertion code, name)", "the Atom built from an atom_site row does not carry the row's values: " + "; ".join(bad.get("items", [])[:1]), K(fi, "atom-record"))
+        chk.expect(not bad.get("null"), "null-markers", fi.where, "evaluated: `?` and `.` in the insertion code and in the occupancy are both read as absent (None)", "an mmCIF null marker is taken as a value: " + "; ".join(bad.get("null", [])[:2]), K(fi, "null-eval"), found=bad.get("null", [])[:4])
+        chk.expect(not bad.get("numbers"), "int-parsing", fi.where, "evaluated: negative and zero residue numbers are read as integers", "residue numbers are read wrongly: " + "; ".join(bad.get("numbers", [])[:2]), K(fi, "numbers-eval"), found=bad.get("numbers", [])[:4])
+        chk.expect(not bad.get("skip") and not bad.get("raise"), "cif-row-skip", fi.where, "evaluated: every row with a label or an author identity yields exactly one atom (optional items may be absent), a row with neither is skipped, rows of several models all come back", "atom_site rows are lost or refused: " + "; ".join((bad.get("skip", []) + bad.get("raise", []))[:2]), K(fi, "row-skip"), found=(bad.get("skip", []) + bad.get("raise", []))[:4])
+        chk.expect(
+            not bad.get("absent"),
+            "cif-absent-items",
+            fi.where,
+            "evaluated: an atom_site category without the author items is read through its label identity",
+            "an atom_site category that lacks an optional item is not read: " + "; ".join(bad.get("absent", [])[:2]) + " - parse_cif looks the item up with a None default and hands the None to the integer conversion",
+            "parser:parse_cif:absent-author-items",
+            found=bad.get("absent", [])[:4],
+        )
+        chk.expect(not bad.get("result"), "reader-result", fi.where, "evaluated: all decoded atoms pass through the duplicate/clash filter once", "; ".join(bad.get("result", [])[:1]), K(fi, "result"))
+        report_silent_exits(chk, "cif-row-skip", [fi] + new_helpers(repo, P), cov, "atom_site rows", {"continue": "the row is skipped: an atom of the file is not among the atoms read", "break": "reading stops there: the rows that follow are not read", "return": "reading ends there"})
+    return True
+
+
+# --------------------------------------------------------------------------------------------------------------------
+# parser_v2.parse_pdb_atoms interpreted as a whole (round 4): documents, not single lines
+# --------------------------------------------------------------------------------------------------------------------
+class V2Reader:
+    """parse_pdb_atoms interpreted from its ast; `pd` is the stand-in of sa/frame.py, the file is a TextFile stub or a plain string."""
+
+    def __init__(self, repo):
+        from sa.frame import pd_namespace
+
+        self.repo = repo
+        self.fi = repo.func("parser_v2", "parse_pdb_atoms")
+        env: Dict[str, Any] = {"pd": pd_namespace(), "object": object, "bytes": bytes, "str": str, "io": Obj("io", StringIO=TextFile)}
+        env.update(module_callables(repo, "parser_v2", outer=env))
+        self.call = func_callable(repo, "parser_v2", self.fi.node, env, max_steps=40000)
+
+    def read(self, lines: List[str], as_text: bool = False):
+        from sa.frame import Frame
+
+        doc = [l.rstrip("\n") + "\n" for l in lines]
+        res = self.call("".join(doc)) if as_text else self.call(TextFile(doc))
+        if not isinstance(res, Frame):
+            raise Unknown("parse_pdb_atoms does not return a table")
+        return res
+
+
+def check_v2_reader_eval(chk) -> bool:
+    """Rules pdb-record-filter and pdb-decode-v2 decided on whole documents: which records of a file become rows (every ATOM / HETATM
+    line of every model, nothing else, whatever follows TER / ENDMDL / other records), with which model number, typed how."""
+    from sa.fragment import coverage
+    from sa.frame import isna
+
+    repo = chk.repo
+    sp = spec("pdb_columns.json")
+    fi = repo.func("parser_v2", "parse_pdb_atoms")
+    wrong: Dict[str, str] = {}
+    stops: List[str] = []
+    raises: Dict[str, str] = {}
+    other: List[str] = []
+    decoded: Optional[Dict[str, Any]] = None
+    fields = dict(ATOM_FIELDS, tempFactor=" 42.17", element=" C", charge="1-", altLoc="A")
+    atom_line = pdb_line(sp, "ATOM", fields)
+    classes = [(t, (pdb_line(sp, t.split()[0], fields) if t.split()[0] in ("ATOM", "HETATM", "ANISOU") and "5-digit" not in t else l), y, m) for t, l, y, m in record_classes(sp)]
+    _cov = coverage()
+    cov = _cov.__enter__()
+    try:
+        rd = V2Reader(repo)
+        for tag, line, yields, may_follow in classes:
+            for as_text in (False, True):
+                try:
+                    got = rd.read([line], as_text)
+                except Raised as ex:
+                    raises[tag] = ex.name
+                    continue
+                except Unknown:
+                    raise
+                except Exception as ex:
+                    raises[tag] = type(ex).__name__
+                    continue
+                if (len(got.index) > 0) != yields:
+                    wrong[tag] = "decoded as an atom" if len(got.index) else "not decoded"
+            if not yields and tag != "END":
+                try:
+                    after = rd.read([line, atom_line])
+                    if len(after.index) != 1:
+                        stops.append(tag)
+                except Unknown:
+                    raise
+                except Exception:
+                    stops.append(tag)
+        m = lambda k: f"MODEL     {k:>4}".ljust(80)
+        water = pdb_line(sp, "HETATM", dict(fields, resName="HOH", name=" O  ", element=" O"))
+        hydrogen = pdb_line(sp, "ATOM", dict(fields, name=" H5'", element=" H"))
+        doc = [m(1), atom_line, hydrogen, "TER".ljust(80), water, "ENDMDL".ljust(80), m(2), atom_line, "TER".ljust(80), water, "ENDMDL".ljust(80), "END".ljust(80)]
+        full = rd.read(doc)
+        models = [None if isna(v) else int(v) for v in full._cols.get("model", [])]
+        kinds = list(full._cols.get("record_type", []))
+        if models != [1, 1, 1, 2, 2] or kinds != ["ATOM", "ATOM", "HETATM", "ATOM", "HETATM"]:
+            other.append(f"a file with MODEL 1 (two atoms, TER, a water) and MODEL 2 (one atom, TER, a water) yields records {kinds} of models {models}")
+        nomodel = rd.read([atom_line])
+        if [int(v) for v in nomodel._cols.get("model", []) if not isna(v)] != [1]:
+            other.append(f"without a MODEL record an atom gets model {list(nomodel._cols.get('model', []))}")
+        if nomodel.attrs.get("format") != "PDB":
+            other.append(f"the table is tagged format={nomodel.attrs.get('format')!r}, not 'PDB'")
+        empty = rd.read(["REMARK   1 no atoms here".ljust(80)])
+        if len(empty.index) != 0 or [c for c in sp["atom"] if c not in empty._cols] or "model" not in empty._cols:
+            other.append("a file without atom records does not give an empty table with the PDB columns")
+        if len(nomodel.index) == 1:
+            decoded = {c: nomodel._cols[c][0] for c in nomodel._cols}
+        blank = rd.read([pdb_line(sp, "ATOM", {k: v for k, v in fields.items() if k not in ("altLoc", "iCode", "element", "charge")})])
+        blank_bad = {k: blank._cols[k][0] for k in ("altLoc", "iCode", "element", "charge") if len(blank.index) == 1 and not isna(blank._cols[k][0])} if len(blank.index) == 1 else {"line": "not decoded"}
+    except Unknown as ex:
+        chk.ok("pdb-reader-v2-eval", fi.where, f"parse_pdb_atoms is not evaluable as a whole on representative documents ({str(ex)[:80]}): the line loop is evaluated line by line")
+        return False
+    finally:
+        _cov.__exit__(None, None, None)
+    loops = [l for l in fi.node.body if isinstance(l, ast.For) and isinstance(l.target, ast.Name)]
+    site = fi.site(loops[0]) if loops else fi.where
+    with evidence(chk, "pdb-record-filter", "pdb-decode-v2", "null-agreement"):
+        bits = [f"a {k} line is {v}" for k, v in wrong.items()] + [f"a {k} line raises {v}" for k, v in raises.items()]
+        chk.expect(not bits, "pdb-record-filter", site, f"evaluated on {len(classes)} record classes, as a file object and as text: parser_v2 keeps exactly the lines whose record name (columns 1-6) is ATOM or HETATM", "parser_v2 does not keep exactly the ATOM / HETATM lines: " + "; ".join(bits[:4]) + ": atom lines are lost or foreign lines decoded", K(fi, "record-filter"), found={**wrong, **raises})
+        if stops or other:
+            what = (f"reading stops at a {', '.join(stops)} record: the atom records that follow it are never read (of a multi-model file only the first model)" if stops else "") + ("; " if stops and other else "") + "; ".join(other[:2])
+            chk.violation("pdb-record-filter", site, what, K(fi, "record-loop-v2"), found={"stops at": stops, "other": other[:3]})
+        else:
+            chk.ok("pdb-record-filter", site, "evaluated on whole documents: no record ends the reading, every ATOM / HETATM line of every model (hydrogens, waters, atoms after TER) becomes a row with its model number; without MODEL records the model is 1; a MODEL line sets the current model from columns 11-14")
+        if decoded is not None:
+            want = {"record_type": "ATOM", "serial": 417, "name": "CA", "altLoc": "A", "resName": "G", "chainID": "B", "resSeq": -12, "iCode": "C", "x": 11.25, "y": -22.5, "z": 33.125, "occupancy": 0.5, "tempFactor": 42.17, "element": "C", "charge": "1-", "model": 1}
+            bad = {k: (decoded.get(k, "<absent>"), v) for k, v in want.items() if not (decoded.get(k, "<absent>") == v and isinstance(decoded.get(k), (int, float)) == isinstance(v, (int, float)))}
+            chk.expect(not bad, "pdb-decode-v2", site, "evaluated: an ATOM line with a distinct value in every field is decoded field for field and typed (serial, number and model as integers - the sign kept -, coordinates, occupancy and B as numbers, the rest as text)", f"fields decoded wrongly from a fully populated ATOM line: { {k: g for k, (g, w) in bad.items()} } (expected { {k: w for k, (g, w) in bad.items()} })", K(fi, "decode"), expected={k: w for k, (g, w) in bad.items()}, found={k: repr(g) for k, (g, w) in bad.items()})
+        chk.expect(not blank_bad, "null-agreement", fi.where, "evaluated: blank optional PDB fields (altLoc, iCode, element, charge) read as missing values", f"blank optional PDB fields are not read as missing: {blank_bad}", K(fi, "blank-none"), found=blank_bad)
+        report_silent_exits(chk, "pdb-record-filter", [fi] + new_helpers(repo, "parser_v2"), cov, "documents (one line per record class, a two-model file with hydrogens and waters)", {"continue": "the line is skipped: an atom record of the file is not among the rows", "break": "reading stops there: the atom records that follow are not read", "return": "reading ends there"})
+    return True
+
+
+# --------------------------------------------------------------------------------------------------------------------
+# parser_v2.parse_cif_atoms interpreted as a whole (round 4)
+# --------------------------------------------------------------------------------------------------------------------
+class _TmpFile:
+    """tempfile.NamedTemporaryFile(...) as a context manager: a named buffer."""
+
+    _folder_stub = True
+    _blockeval_context = True
+    name = "/nonexistent/representative.cif"
+
+    def __init__(self, *a, **k):
+        self.parts: List[str] = []
+
+    def write(self, s):
+        self.parts.append(s)
+        return len(s)
+
+    def seek(self, *a):
+        return 0
+
+    def read(self):
+        return "".join(self.parts)
+
+    def flush(self):
+        return None
+
+    def close(self):
+        return None
+
+
+class V2CifReader:
+    """parse_cif_atoms interpreted from its ast.  The mmcif library is a stub that hands out the atom_site category as attribute names
+    and rows of strings (what IoAdapterPy does); `pd` is the stand-in of sa/frame.py; temporary files are named buffers."""
+
+    def __init__(self, repo):
+        from sa.frame import pd_namespace
+
+        self.repo = repo
+        self.fi = repo.func("parser_v2", "parse_cif_atoms")
+        self.category: Optional[_Category] = None
+        self.reads: List[str] = []
+        reader = Obj("adapter", readFile=lambda path, *a, **k: (self.reads.append(path), [_Container({"atom_site": self.category} if self.category is not None else {})])[1])
+        env: Dict[str, Any] = {
+            "pd": pd_namespace(), "object": object, "bytes": bytes, "str": str, "IoAdapterPy": lambda *a, **k: reader, "IoAdapterCore": lambda *a, **k: reader,
+            "io": Obj("io", StringIO=TextFile), "tempfile": Obj("tempfile", NamedTemporaryFile=_TmpFile), "os": Obj("os", remove=lambda p: None, unlink=lambda p: None, path=Obj("path", exists=lambda p: True)),
+            "hasattr": lambda o, a: hasattr(o, a),
+        }
+        env.update(module_callables(repo, "parser_v2", outer=env))
+        self.call = func_callable(repo, "parser_v2", self.fi.node, env, max_steps=60000)
+
+    def read(self, rows: List[Dict[str, str]], how: str = "text"):
+        from sa.frame import Frame
+
+        attrs: List[str] = []
+        for r in rows:
+            for k in r:
+                if k not in attrs:
+                    attrs.append(k)
+        self.category = _Category(attrs, [[r.get(a, "?") for a in attrs] for r in rows]) if rows else None
+        if how == "text":
+            arg: Any = "data_representative\n#\n"
+        elif how == "stringio":
+            arg = TextFile(["data_representative\n", "#\n"])
+        else:
+            arg = Obj("file", name="/nonexistent/representative.cif", seek=lambda *a: 0, read=lambda: "data_representative\n")
+        res = self.call(arg)
+        if not isinstance(res, Frame):
+            raise Unknown("parse_cif_atoms does not return a table")
+        return res
+
+
+CIF_V2_ROWS = [
+    dict(CIF_FULL),
+    dict(CIF_FULL, id="8", label_atom_id="P", auth_atom_id="P", type_symbol="P", pdbx_PDB_ins_code="?", label_alt_id="A", occupancy="1.00", pdbx_formal_charge="-1", Cartn_x="-0.001", pdbx_PDB_model_num="2"),
+    dict(CIF_FULL, id="9", group_PDB="HETATM", label_comp_id="HOH", auth_comp_id="HOH", label_atom_id="O", auth_atom_id="O", type_symbol="O", label_seq_id=".", pdbx_PDB_ins_code=".", auth_seq_id="301", pdbx_PDB_model_num="3", B_iso_or_equiv="?"),
+]
+
+
+def check_cif_atoms_eval(chk) -> bool:
+    """parse_cif_atoms on one atom_site category per class of cell value (text / StringIO / named file input): every row becomes a row of
+    the table in file order, every item a column, both null markers a missing value, numbers typed as numbers, format tag mmCIF."""
+    from sa.fragment import coverage
+    from sa.frame import isna
+
+    repo = chk.repo
+    fi = repo.func("parser_v2", "parse_cif_atoms")
+    bad: Dict[str, List[str]] = {}
+    _cov = coverage()
+    cov = _cov.__enter__()
+    try:
+        rd = V2CifReader(repo)
+        for how in ("text", "stringio", "file"):
+            try:
+                t = rd.read(CIF_V2_ROWS, how)
+            except Raised as ex:
+                bad.setdefault("rows", []).append(f"input as {how}: parse_cif_atoms raises {ex.name}")
+                continue
+            except Unknown:
+                raise
+            except Exception as ex:
+                bad.setdefault("rows", []).append(f"input as {how}: parse_cif_atoms raises {type(ex).__name__} ({str(ex)[:50]})")
+                continue
+            if len(t.index) != len(CIF_V2_ROWS) or [str(v) for v in t._cols.get("id", [])] != [r["id"] for r in CIF_V2_ROWS]:
+                bad.setdefault("rows", []).append(f"input as {how}: atom_site rows with ids {[r['id'] for r in CIF_V2_ROWS]} come back as rows {[str(v) for v in t._cols.get('id', [])]}")
+                continue
+            missing = [a for a in CIF_FULL if a not in t._cols]
+            if missing:
+                bad.setdefault("rows", []).append(f"input as {how}: items {missing[:4]} are not columns of the table")
+                continue
+            for k, row in enumerate(CIF_V2_ROWS):
+                for item, txt in row.items():
+                    got = t._cols[item][k]
+                    if txt in ("?", "."):
+                        if not isna(got):
+                            bad.setdefault("null", []).append(f"{item} = `{txt}` is read as {got!r}, not as a missing value")
+                    elif item in ("Cartn_x", "Cartn_y", "Cartn_z", "occupancy", "B_iso_or_equiv"):
+                        if not (isinstance(got, (int, float)) and abs(got - float(txt)) < 1e-9):
+                            bad.setdefault("types", []).append(f"{item} = `{txt}` is read as {got!r}, not as the number")
+                    elif item in ("label_seq_id", "pdbx_PDB_model_num", "pdbx_formal_charge"):
+                        if not (isinstance(got, int) and not isinstance(got, bool) and got == int(txt)):
+                            bad.setdefault("types", []).append(f"{item} = `{txt}` is read as {got!r}, not as the integer")
+                    elif str(got) != txt:
+                        bad.setdefault("types", []).append(f"{item} = `{txt}` is read as {got!r}")
+            if t.attrs.get("format") != "mmCIF":
+                bad.setdefault("rows", []).append(f"the table is tagged format={t.attrs.get('format')!r}, not 'mmCIF'")
+        empty = rd.read([], "text")
+        if len(empty.index) != 0:
+            bad.setdefault("rows", []).append("a file without an atom_site category does not give an empty table")
+    except Unknown as ex:
+        chk.ok("cif-atoms-eval", fi.where, f"parse_cif_atoms is not evaluable as a whole on representative categories ({str(ex)[:80]}): the pinned-form rule decides")
+        return False
+    finally:
+        _cov.__exit__(None, None, None)
+    with evidence(chk, "null-markers-v2", "cif-table"):
+        chk.expect(not bad.get("null"), "null-markers-v2", fi.where, "evaluated: parser_v2 reads both mmCIF null markers (`?` and `.`) as missing values, in every item", "parser_v2 does not treat both `?` and `.` as missing: " + "; ".join(sorted(set(bad.get("null", [])))[:3]), K(fi, "nulls"), found=sorted(set(bad.get("null", [])))[:6])
+        chk.expect(not bad.get("rows"), "cif-table", fi.where, "evaluated (text, StringIO and named-file input): every atom_site row becomes a row of the table in file order, every item a column, tagged format='mmCIF'", "atom_site rows are lost, reordered or refused: " + "; ".join(bad.get("rows", [])[:2]), K(fi, "cif-rows"), found=bad.get("rows", [])[:4])
+        chk.expect(not bad.get("types"), "cif-table", fi.where, "evaluated: coordinates, occupancy and B as numbers, label_seq_id / model / charge as integers (the sign kept), the other items as their text", "items are typed or copied wrongly: " + "; ".join(sorted(set(bad.get("types", [])))[:3]), K(fi, "cif-types"), found=sorted(set(bad.get("types", [])))[:6])
+        report_silent_exits(chk, "cif-table", [fi] + new_helpers(repo, "parser_v2"), cov, "atom_site categories", {"continue": "the row (or item) is skipped", "break": "reading stops there", "return": "a table is returned before all rows are read"})
     return True
